@@ -447,6 +447,19 @@ impl<T: E> World<T> {
       }
       _ => None,
     };
+    // C06: a vector without storage that asks for no capacity must stay without storage
+    let asks_nothing: Option<usize> = match name {
+      "reserve" | "reservex" if t(2) == "0" => Some(n(1)),
+      "shrinkfit" => Some(n(1)),
+      _ => None,
+    };
+    let pre_no_storage = match asks_nothing {
+      Some(v) if v < self.vecs.len() && self.vecs[v].is_some() && !self.borrowed[v] => {
+        let mv = self.vref(v);
+        mv.as_ptr().is_null() && mv.capacity() == 0
+      }
+      _ => false,
+    };
     macro_rules! need {
       ($v:expr) => {
         if !self.has($v) {
@@ -1697,6 +1710,14 @@ impl<T: E> World<T> {
           if !(p0 == 0 && l1 > 0) {
             self.monitor(format!("storage_moved:{}:cap{}>{}", name, c0, c1));
           }
+        }
+      }
+    }
+    if let (Some(v), true) = (asks_nothing, pre_no_storage) {
+      if out == "ok" && v < self.vecs.len() && self.vecs[v].is_some() && !self.borrowed[v] {
+        let mv = self.vref(v);
+        if !mv.as_ptr().is_null() || mv.capacity() != 0 {
+          self.monitor(format!("storage_for_nothing:{}:v{}", name, v));
         }
       }
     }
